@@ -295,7 +295,9 @@ fn gen_relspec(rng: &mut Rng, seq: usize) -> RelSpec {
             let t = grel::relation(rng, &f);
             // make the name unique so that each observed relation is attributable to one write
             let rest = t.trim_start_matches(|c: char| c.is_ascii_alphanumeric() || c == '-' || c == '.' || c == '+');
-            RelSpec::Parse { text: format!("{name}{rest}") }
+            // the parsed operand may carry whitespace around it
+            let (lead, trail) = if rng.chance(1, 4) { (rng.s(&["", " ", "  ", "\t"]), rng.s(&["", " ", "  ", "\t"])) } else { ("", "") };
+            RelSpec::Parse { text: format!("{lead}{name}{rest}{trail}") }
         }
         2 => RelSpec::New { name, version },
         3 => RelSpec::New { name, version: None },
@@ -811,8 +813,8 @@ impl Scenario for C11 {
     const LEVEL: &'static str = "exploration";
     fn runs(tier: Tier) -> u64 {
         match tier {
-            Tier::Quick => 100_000,
-            Tier::Thorough => 3_000_000,
+            Tier::Quick => 400_000,
+            Tier::Thorough => 8_000_000,
         }
     }
     fn rule() -> &'static str {
